@@ -41,3 +41,5 @@ const rtEnabled = true
 // atomic of the harness - nothing the race detector would take for
 // synchronisation between the goroutines that call it.
 func rtYield(site uint32) { runtime.VerifYield(site) }
+
+func rtSpinBreaksNow() uint64 { return runtime.VerifSpinBreaks() }
